@@ -311,6 +311,11 @@ func Supervise(prop, tier string, seed int64) int {
 			if k.Key == key || (strings.HasSuffix(k.Key, "*") && strings.HasPrefix(key, strings.TrimSuffix(k.Key, "*"))) {
 				return k.Key + " " + k.What, true
 			}
+			if strings.HasPrefix(k.Key, "re:") {
+				if ok, _ := regexp.MatchString(strings.TrimPrefix(k.Key, "re:"), key); ok {
+					return k.Key + " " + k.What, true
+				}
+			}
 		}
 		return "", false
 	}
